@@ -278,6 +278,52 @@ class A(Adapter):
             return "schedule_finished"
         return None
 
+    # ---- reach probes -------------------------------------------------------------------------------
+    def events(self, ps, action, s, ts, env, cfg):
+        if ps is None:
+            v = self._view(s)
+            ev = [f"reset_gen_{cfg.get('gen', 'unknown')}"]
+            if not v["valid"].all():
+                ev.append("reset_padded_ops")
+            if (self.legal(s, env)[:, :v["J"]].sum(axis=1) >= 2).any():
+                ev.append("reset_jobs_contend_for_machine")
+            return ev
+        pv = self._view(ps)
+        J, M, t = pv["J"], pv["M"], pv["now"]
+        act = [int(a) for a in action]
+        leg = self.legal(ps, env)
+        bad = [m for m in range(M) if not leg[m, act[m]]]
+        picks = [j for j in act if j < J]
+        ev = ["two_machines_pick_same_job"] if len(set(picks)) < len(picks) else []
+        if bad:
+            ev.append("ended_invalid_action")
+            for m in bad:
+                j = act[m]
+                k = int(pv["next"][j])
+                ev.append("invalid_machine_busy" if pv["mach_until"][m] > t else "invalid_job_finished" if k < 0 else
+                          "invalid_job_running" if pv["job_until"][j] > t else "invalid_wrong_machine")
+            return sorted(set(ev))
+        free = leg[:, :J].sum(axis=1)  # startable jobs per machine
+        if (free >= 2).any():
+            ev.append("jobs_contend_for_idle_machine")
+        if any(act[m] == J and free[m] > 0 for m in range(M)):
+            ev.append("noop_although_job_startable")
+        ev.append("all_machines_noop" if not picks else ("ops_started_ge_2" if len(picks) >= 2 else "one_op_started"))
+        if self._all_inactive(pv, act):
+            ev.append("ended_all_machines_idle")
+        durs = [int(pv["dur"][j, int(pv["next"][j])]) for j in picks]
+        ev += ["op_of_duration_1_started"] * (1 in durs) + ["op_of_max_duration_started"] * (int(cfg.get("d", -1)) in durs)
+        v = self._view(s)
+        fin0 = (pv["next"] < 0) & (pv["job_until"] <= t)
+        fin1 = (v["next"] < 0) & (v["job_until"] <= t + 1)
+        newly = int((fin1 & ~fin0).sum())
+        ev += ["job_finished"] * (newly >= 1) + ["two_jobs_finished_at_once"] * (newly >= 2)
+        if picks and not (v["valid"] & ~v["started"]).any():
+            ev.append("last_op_started")
+        if fin1.all():
+            ev.append("ended_schedule_finished")
+        return ev
+
     # ---- C12 -----------------------------------------------------------------------------------------
     def observe(self, s, obs, env, cfg):
         for name in ("ops_machine_ids", "ops_durations", "ops_mask", "machines_job_ids", "machines_remaining_times", "action_mask"):
